@@ -14,8 +14,17 @@ _TXT = {}
 
 
 def text(name):
+    """fixture text; 'name~-OD1-OD2@25' is the fixture `name` without the atoms OD1 and OD2 of residue 25
+    (an incompletely modelled residue)"""
     if name not in _TXT:
-        _TXT[name] = open(os.path.join(FIX, name + '.pdb')).read()
+        if '~' in name:
+            base, spec = name.split('~', 1)
+            atoms, resnum = spec.split('@')
+            drop = set(x for x in atoms.split('-') if x)
+            _TXT[name] = '\n'.join(l for l in text(base).split('\n')
+                                   if l and not (l[:6] in ('ATOM  ', 'HETATM') and int(l[22:26]) == int(resnum) and l[12:16].strip() in drop)) + '\n'
+        else:
+            _TXT[name] = open(os.path.join(FIX, name + '.pdb')).read()
     return _TXT[name]
 
 
